@@ -4,7 +4,10 @@ Run as `.lake/build/bin/driver < ops.txt` (compiled; nothing imported here touch
 or `lake env lean --run Driver.lean < ops.txt`.
 -/
 import MatidModel
-import MatidGen
+-- only the small generated definitions the ops need: the driver must build even when a table theorem fails
+import MatidGen.Radii
+import MatidGen.Centring
+import MatidGen.WyckoffRule
 
 open Matid Matid.Parse
 
@@ -80,12 +83,77 @@ def opWParams (args : List String) : String :=
     | _, _, _, _, _, _ => "bad-op"
   | _ => "bad-op"
 
+def parsePerm? (s : String) : Option (List (Nat × Nat)) :=
+  parseList? (fun kv => match kv.splitOn ":" with
+    | [a, b] => do let x ← a.toNat?; let y ← b.toNat?; pure (x, y)
+    | _ => none) s
+
+/-- `select <perm;perm;…|-> <letters> <numbers>`; each perm = comma separated `old:new` character codes -/
+def opSelect (args : List String) : String :=
+  open Matid.Select in
+  match args with
+  | [permsS, lettersS, numbersS] =>
+    let perms? : Option (List (List (Nat × Nat))) := if permsS == "-" then some [] else (permsS.splitOn ";").mapM parsePerm?
+    match perms?, parseList? parseNat? lettersS, parseList? parseNat? numbersS with
+    | some perms, some letters, some numbers =>
+      if letters.length != numbers.length then "bad-op" else
+      match selectRep perms letters numbers with
+      | .ok i => "ok " ++ toString i
+      | .error .matid => "MatIDError"
+      | .error .key => "KeyError"
+    | _, _, _ => "bad-op"
+  | _ => "bad-op"
+
+/-- `applynorm <packed map> <3n rationals>` : transformed and wrapped fractional coordinates -/
+def opApplyNorm (args : List String) : String :=
+  open Matid.Select Matid.Table in
+  match args with
+  | [mapS, posS] =>
+    match mapS.toNat?, parseList? parseRat? posS with
+    | some m, some ps =>
+      if ps.length % 3 != 0 then "bad-op" else
+      let n := decode m
+      let out := (List.range (ps.length / 3)).flatMap fun i =>
+        let q := applyNorm n (ps.getD (3 * i) 0, ps.getD (3 * i + 1) 0, ps.getD (3 * i + 2) 0)
+        [q.1, q.2.1, q.2.2]
+      showList showRat out
+    | _, _ => "bad-op"
+  | _ => "bad-op"
+
+/-- `sets <letters> <numbers> <equiv>` : sorted Wyckoff sets `letter:number:i.j.k|…` -/
+def opSets (args : List String) : String :=
+  open Matid.Select in
+  match args with
+  | [lettersS, numbersS, equivS] =>
+    match parseList? parseNat? lettersS, parseList? parseNat? numbersS, parseList? parseNat? equivS with
+    | some letters, some numbers, some equiv =>
+      if letters.length != equiv.length || numbers.length != equiv.length then "bad-op" else
+      let sets := sortSets (wyckoffSets letters numbers equiv)
+      "|".intercalate (sets.map fun s => toString s.letter ++ ":" ++ toString s.number ++ ":" ++ ".".intercalate (s.indices.map toString))
+    | _, _, _ => "bad-op"
+  | _ => "bad-op"
+
+/-- `idstring <number> <0|1> <s1|s2|…>` with '_' for the blanks inside the set strings -/
+def opIdString (args : List String) : String :=
+  match args with
+  | [numS, twoS, setsS] =>
+    match numS.toNat?, parseBool? twoS with
+    | some n, some t =>
+      let strs := if setsS == "-" then [] else (setsS.splitOn "|").map fun s => s.replace "_" " "
+      Matid.Select.idStringExec n strs t
+    | _, _ => "bad-op"
+  | _ => "bad-op"
+
 def step (line : String) : String :=
   match words line with
   | "radii" :: args => opRadii args
   | "chiral" :: args => opChiral args
   | "prim" :: args => opPrim args
   | "wparams" :: args => opWParams args
+  | "select" :: args => opSelect args
+  | "applynorm" :: args => opApplyNorm args
+  | "sets" :: args => opSets args
+  | "idstring" :: args => opIdString args
   | _ => "bad-op"
 
 partial def loop (h : IO.FS.Stream) (out : IO.FS.Stream) : IO Unit := do
